@@ -127,6 +127,7 @@ impl Scenario for EciesNet {
                 1..=5 => (rng.range(0, 4) * 16 + rng.below(16)) as usize,
                 6 => *rng.pick(&[15usize, 16, 17, 31, 32, 33]),
                 7 if tier == Tier::Thorough => rng.range(1000, 32768) as usize,
+                8 if rng.chance(1, 6) => *rng.pick(&[4095usize, 4096, 4097, 65535, 65536]),
                 _ => rng.range(0, 300) as usize,
             };
             let mode = *rng.pick(&["explicit", "explicit", "ephemeral", "ephemeral", "exclude", "priv_encrypt_message", "pub_encrypt_message"]);
